@@ -13,7 +13,7 @@ func init() {
 		ID:    "C17",
 		Level: "exploration",
 		Rule: "grid of datetime strings built from components (five types x offsets -12..+14 incl. :30/:45 x day/year boundaries x 0..9 fractional digits, 'T' and space separators, 'Z'/+hh/+hh:mm zones) x 6 methods x precisions absent/0..7 x {WithTZ, not} x context zones {none, UTC, fixed offsets, named zones}; " +
-			"all pairs of a sub-grid x 6 operators x zones: direct comparison vs the time-arithmetic model, vs the same comparison after explicit casts of both sides to the common type (two executions of the real code), antisymmetry and transitivity on observed outcomes; every half hour around the daylight-saving transitions of two named zones as timestamp and as timestamptz, all pairs. " +
+			"all pairs of a sub-grid x 6 operators x zones: direct comparison vs the time-arithmetic model, vs the same comparison after explicit casts of both sides to the common type (two executions of the real code), antisymmetry and transitivity on observed outcomes; every half hour around the daylight-saving transitions of two named zones as timestamp and as timestamptz, all pairs; dates in the local-mean-time eras of three zones (offsets with seconds); zones sharing an abbreviation visited one after the other in one process. " +
 			"Non-trivial: the string is accepted by some method; distinct by (string(s), method/operator, precision, tz, zone)",
 		Run:    runC17,
 		Replay: replayC17,
@@ -374,6 +374,60 @@ func runC17(c *h.Ctx) {
 				idx++
 				if c.Mine(idx) {
 					checkCompare(c, a, b, true, tr.zone, rel)
+				}
+			}
+		}
+	}
+	// local-mean-time eras of named zones: the offset of the context zone is
+	// not a whole number of minutes (New York -4:56:02 before 1883, Amsterdam
+	// +0:19:32 before 1937, Monrovia -0:44:30 until 1972)
+	for _, lm := range []struct {
+		zone, date string
+		tstz       []string
+	}{
+		{"America/New_York", "1850-01-01", []string{"1850-01-01T04:56:02+00", "1850-01-01T04:56:00+00", "1850-01-01T04:57:00+00", "1850-01-01T05:00:00+00", "1850-01-01T04:56:01+00", "1850-01-01T04:56:03+00"}},
+		{"Europe/Amsterdam", "1900-06-01", []string{"1900-05-31T23:40:28+00", "1900-05-31T23:40:00+00", "1900-05-31T23:41:00+00", "1900-06-01T00:00:00+00", "1900-05-31T23:40:27+00", "1900-05-31T23:40:29+00"}},
+		{"Africa/Monrovia", "1960-03-01", []string{"1960-03-01T00:44:30+00", "1960-03-01T00:44:00+00", "1960-03-01T00:45:00+00", "1960-03-01T00:00:00+00", "1960-03-01T00:44:29+00", "1960-03-01T00:44:31+00"}},
+	} {
+		vals := []dtStr{{lm.date, "date"}, {lm.date + "T00:00:00", "timestamp"}, {lm.date + "T00:00:01", "timestamp"}, {lm.date + "T12:00:00", "timestamp"}}
+		for _, t := range lm.tstz {
+			vals = append(vals, dtStr{t, "timestamptz"})
+		}
+		rel := map[[2]string]int{}
+		for _, a := range vals {
+			for _, b := range vals {
+				idx++
+				if c.Mine(idx) {
+					checkCompare(c, a, b, true, lm.zone, rel)
+				}
+			}
+			for _, m := range []string{"timestamp_tz", "datetime", "date", "timestamp"} {
+				idx++
+				if c.Mine(idx) {
+					checkCast(c, a, m, -1, true, lm.zone)
+				}
+			}
+		}
+	}
+	// zones that share an abbreviation but not an offset (CST: Chicago,
+	// Shanghai, Havana; IST: Kolkata, Jerusalem, Dublin; PST: Los Angeles,
+	// Manila), one after the other in the same process: the zone of THIS call's
+	// context decides
+	shared := []string{"America/Chicago", "Asia/Shanghai", "America/Havana", "Asia/Kolkata", "Asia/Jerusalem", "Europe/Dublin", "America/Los_Angeles", "Asia/Manila", "Asia/Shanghai", "America/Chicago"}
+	for di, date := range []string{"2024-01-15", "2024-07-15", "1995-12-01", "2010-03-28"} {
+		if !c.Mine(di) {
+			continue
+		}
+		vals := []dtStr{{date, "date"}, {date + "T00:00:00", "timestamp"}, {date + "T06:00:00+00", "timestamptz"}, {date + "T00:00:00+08", "timestamptz"}, {date + "T00:00:00-06", "timestamptz"}, {date + "T00:00:00+05:30", "timestamptz"}}
+		for round := 0; round < 2; round++ {
+			for _, zone := range shared {
+				rel := map[[2]string]int{}
+				for _, a := range vals {
+					checkCast(c, a, "timestamp_tz", -1, true, zone)
+					checkCast(c, a, "datetime", -1, true, zone)
+					for _, b := range vals {
+						checkCompare(c, a, b, true, zone, rel)
+					}
 				}
 			}
 		}
